@@ -1,0 +1,61 @@
+//go:build verif
+
+package byteslicepool
+
+// Contracts for govc (contract-based deductive verification; see /verif/DESIGN.md, property C08:
+// pool content never leaks one caller's bytes into another's).
+// This file holds only comments and is compiled only with -tags verif.
+
+//@ type ByteSlicePool
+//@   invariant self.pool != nil
+
+//@ func NewByteSlicePool
+//@   tags C08 C07
+//@   modifies nothing
+//@   ensures fresh(result) && result.MinCap == minCap && result.pool != nil && fresh(result.pool)
+
+// Get: whatever a later Resize or reslice of the returned slice can expose (everything up to its capacity) is
+// zero, whether the slice is new or was used by somebody else before.
+//@ func (ByteSlicePool).Get
+//@   tags C08 C07
+//@   requires inv(sp)
+//@   requires capacity >= 0 || sp.MinCap >= 0
+//@   modifies released
+//@   ensures len(result) == 0 && cap(result) >= 0
+//@   ensures [C08.get.zero] forall i :: 0 <= i && i < cap(result) ==> result[i] == 0
+//@   replay template poolleak
+//@   replay val capacity = capacity
+//@   replay val mincap = sp.MinCap
+// Element invariant of the private pool: only ByteSlicePool.Put stores into sp.pool (unexported field), and it
+// stores a []byte (asserted there).
+//@   at call Get#0 assume res0 != nil ==> typeis(res0, "[]byte")
+// Ownership: what comes out of a sync.Pool belongs to the caller alone (modelled as freshness, as the assumed
+// contract of (*sync.Pool).Get in encv1_libs.spec does for *[]byte elements).
+//@   at call Get#0 assume res0 != nil ==> fresh(unbox(res0, "[]byte"))
+// What the loop does establish: the bytes inside the pooled slice's length are zero.
+//@   at return#1 assert [C08.get.zero.len] forall j :: 0 <= j && j < len(buf) ==> buf[j] == 0
+//@   loop 0 invariant -1 <= rangeindex && rangeindex < len(buf)
+//@   loop 0 invariant forall j :: 0 <= j && j <= rangeindex ==> buf[j] == 0
+
+//@ func (ByteSlicePool).Put
+//@   tags C08 C07
+//@   requires inv(sp)
+//@   modifies released
+//@   at before call Put#0 assert [C08.pool.elem] typeis(arg1, "[]byte")
+
+// Resize: in place it only moves len inside orig's capacity (same backing array, same start); otherwise the
+// result is a new array holding orig's bytes followed by zeros up to its capacity.
+//@ func (ByteSlicePool).Resize
+//@   tags C08 C07
+//@   requires size >= 0
+//@   modifies nothing
+//@   ensures len(result) == size
+//@   ensures [C08.resize.inplace] size < cap(orig) ==> (result.base == orig.base && result.off == orig.off && cap(result) == cap(orig))
+//@   ensures [C08.resize.fresh] size >= cap(orig) ==> (fresh(result) && cap(result) >= size)
+//@   ensures [C08.resize.prefix] size >= cap(orig) ==> (forall i :: 0 <= i && i < len(orig) ==> result[i] == old(orig[i]))
+//@   ensures [C08.resize.zero] size >= cap(orig) ==> (forall i :: len(orig) <= i && i < cap(result) ==> result[i] == 0)
+
+//@ func max
+//@   tags C08 C07
+//@   modifies nothing
+//@   ensures result >= x && result >= y && (result == x || result == y)
